@@ -3,9 +3,11 @@
     bytes are consumed, every allocation request, every rejection, and the NESTING DEPTH of the
     recursion -- but does not build the AST (nothing later in the loader looks inside it).
 
-    [read_expression] is recursive without a depth limit.  [depth] is the current nesting of
-    [read_expression] frames; exceeding [stack_limit E] is the outcome [StackOverflow] (the Rust
-    process aborts with SIGSEGV/SIGABRT "has overflowed its stack").  Recursion is structural on
+    [read_expression] is recursive; a [DepthGuard] rejects nesting beyond MAX_EXPRESSION_DEPTH
+    ([bin_max_expr_depth], regenerated from the source).  [depth] is the current nesting of
+    [read_expression] frames (the guard runs INSIDE the frame, so the frame must exist: exceeding
+    [stack_limit E] first is the outcome [StackOverflow], possible only on a stack that cannot hold
+    [bin_max_expr_depth + 1] frames).  Recursion is structural on
     [fuel]; [read_expression] supplies [S (length input)] (enough: every level consumes its tag byte).
 
     Tag bytes come from Generated/Consts.v.  No proofs in this file. *)
@@ -27,6 +29,7 @@ Definition opt (m : dec unit) : dec unit := b <- read_bool ;; when_ b m.
 
 Fixpoint read_expr (E : env) (fuel : nat) (depth : Z) : dec unit :=
   if stack_limit E <? depth then stop StackOverflow else
+  if bin_max_expr_depth <? depth then fail EDepth else
   match fuel with
   | O => stop OutOfFuel
   | S f =>
